@@ -10,8 +10,9 @@ props = [json.loads(l) for l in open(os.path.join(HERE, "properties.jsonl"))]
 CLAIMED = {
     "C14": ("MIR dominator/path-condition analysis of #[target_feature] call sites with crate-wide who-may-write "
             "inference of feature flags and tier enums (R-TF); who-may-call rule on signed 8-bit lane comparisons in compare "
-            "kernels with bias-idiom recognition (R-SIGNED)",
-            "static rule over all MIR bodies: decides the dispatch-soundness clause (kernels entered only under an "
+            "kernels with bias-idiom recognition (R-SIGNED); no implicit-length PCMPISTR* on byte slices and no narrowing of 64-lane "
+            "masks (R-LANES)",
+            "static rules over all MIR bodies: decide the dispatch-soundness clause (kernels entered only under an "
             "implying runtime feature check; portable fallback exists) for every call site in the crate; it does not "
             "decide that kernels compute the scalar function; plus: no cmp/compare kernel orders bytes with an unbiased "
             "signed lane comparison",
@@ -50,7 +51,8 @@ CLAIMED["C05"] = (
 CLAIMED["C06"] = (
     "MIR must-pass-through-sanitiser analysis for the in-band occupancy marker (R-TAINT-S, sentinels and sanitiser inferred "
     "structurally, incl. enumerators) + probe-past-tombstone path rule (R-PROBE) + sibling agreement of hash-to-slot reduction "
-    "(R-SIBLING.index) + parallel-vector reshape agreement (R-PARALLEL) + variant-routing coverage (R-VARIANT)",
+    "(R-SIBLING.index) + parallel-vector reshape agreement (R-PARALLEL) + clear() completeness over collection fields (R-CLEAR) + "
+    "variant-routing coverage (R-VARIANT)",
     "static rules over MIR: a hash from Hasher::finish cannot reach a store into / comparison with HashEntry.hash without "
     "passing a function that tests every sentinel; every map operation x HashMapStorage variant reaches a back end that "
     "reads the key",
@@ -80,7 +82,8 @@ CLAIMED["C19"] = (
     "DESIGN.md section 4 C19, section 3 R-ORDER")
 CLAIMED["C13"] = (
     "MIR layout-event agreement between writers and readers (R-PAIR, strong projection), per-marker arm agreement for constant "
-    "one-byte presence/kind markers (R-PAIR.marker) and inverse dispatch tables (R-VARIANT.inverse)",
+    "one-byte presence/kind markers (R-PAIR.marker), inverse dispatch tables (R-VARIANT.inverse) and flush-before-seek ordering of the "
+    "buffering writer (R-ORDER)",
     "static rules over MIR: every DataOutput::write_K x DataInput::read_K implementor pair and every serialize/deserialize "
     "pair of the io files must produce the same sequence of multi-byte integer widths+endianness, primitive kinds and nested "
     "(de)serialisations; each VarIntStrategy variant must decode with the helper family it encodes with",
@@ -88,13 +91,14 @@ CLAIMED["C13"] = (
     "DESIGN.md section 4 C13, section 3 R-PAIR")
 for _pid, _what, _extra_t, _extra_w in (
         ("C04", "select1/select0 refuse k >= count; positions checked before unchecked word access",
-         "; who-writes rule on BitVector.len / .blocks in shrinking methods (R-SHRINK)",
+         "; who-writes rule on BitVector.len / .blocks in shrinking methods (R-SHRINK); last-word mask rule (R-TAILMASK)",
          "; BitVector's pop/resize/clear clear the storage they vacate (whole-word popcounts rely on it)"),
         ("C09", "indexed accessors of the compressed integer containers refuse reads past the end",
          "; chunks_exact tail-handling rule (R-REMAINDER)",
          "; no chunked scan of the values ignores its remainder"),
         ("C10", "index parameters are guarded before unchecked access; push/pop examine fullness/emptiness before touching a slot",
-         "; wrapped-cursor store rule (R-WRAP), empty-by-construction range rule (R-EMPTYRANGE), sync-before-remap ordering (R-ORDER)",
+         "; wrapped-cursor store rule (R-WRAP), empty-by-construction range rule (R-EMPTYRANGE), sync-before-remap ordering (R-ORDER), "
+         "clear() completeness (R-CLEAR), bulk-vs-single effect agreement (R-SIBLING.batch)",
          "; ring cursors are only stored wrapped; drop loops of shrinking operations are not empty by construction; MmapVec "
          "writes its mapping back before re-reading the file")):
     CLAIMED[_pid] = (
@@ -121,14 +125,15 @@ CLAIMED["C02"] = (
     "DESIGN.md section 4 C02, section 3 R-PAIR / R-SYM")
 CLAIMED["C03"] = (
     "MIR store/load path symmetry for every wrapper impl BlobStore and the DictZip entropy stage (R-SYM with codec-family stems), "
-    "content flow of persistent fields (R-FLOW), header layout agreement (R-PAIR)",
+    "content flow of persistent fields (R-FLOW), header layout agreement (R-PAIR), batch-vs-single effect agreement (R-SIBLING.batch)",
     "static rules over MIR: what put applies get inverts on every put path; save/load carry the content of every persistent field; "
     "header writer and reader agree",
     "three structural clauses of C03; id allocation, len/contains/size bookkeeping, offset arithmetic and bitmap logic are not decided",
     "DESIGN.md section 4 C03, section 3 R-SYM / R-FLOW")
 CLAIMED["C08"] = (
     "MIR analysis of compare-exchange pops on intrusive free lists (R-ABA: version tag or live lock; single head snapshot), tag advance "
-    "and relink-inside-the-retry-loop on push, atomic check-then-act and load/modify/store (R-ATOM)",
+    "and relink-inside-the-retry-loop on push, atomic check-then-act and load/modify/store (R-ATOM), check-then-act across two "
+    "critical sections of one lock (R-LOCKSPLIT)",
     "static rule over MIR: every CAS whose new value is read through the loaded head must carry a +1 version tag derived from the "
     "loaded word (directly or in a crate-local helper) or run under a live lock guard; tagged lists advance the tag on every CAS",
     "one structural clause of C08 (free structures stay well formed under pre-emption between head load and CAS); linearizability, "
@@ -136,7 +141,8 @@ CLAIMED["C08"] = (
     "DESIGN.md section 4 C08, section 3 R-ABA")
 CLAIMED["C17"] = (
     "MIR must-pass-through / who-may-call analysis of the eviction path (R-ORDER/R-FLOW), lock-order graph with read/write modes "
-    "(R-LOCKORDER), recency refresh on every entry access (R-TOUCH), index-lock coverage of list operations (R-LOCKCOV.lru) and "
+    "(R-LOCKORDER), recency refresh on every entry access (R-TOUCH), index-lock coverage of list operations (R-LOCKCOV.lru), clear() "
+    "completeness (R-CLEAR) and "
     "routing purity of the shard selector",
     "static rules over MIR: evict_lru invokes the callback exactly once on the entry it unlinks and only when the map is full; the "
     "locks of LruMap are acquired in one order; the shard for a key depends on the key and on no thread id / counter / clock",
@@ -146,7 +152,8 @@ CLAIMED["C17"] = (
 CLAIMED["C07"] = (
     "MIR taint/bit-width analysis of capacity guards (R-ARITH/R-GUARD), class-size provenance (R-CLASS), raw-owner-pointer escape + "
     "compile-fail witnesses (R-OWN), must-consume analysis (R-LINEAR), who-may-drop-an-arena (R-ARENA), commit-before-check on atomic "
-    "cursors (R-COMMIT)",
+    "cursors (R-COMMIT), relink-inside-retry-loop on CAS pushes (R-ABA.relink), capacity/request consistency of recycled mmap regions "
+    "(R-VIEW), refusal test on the carve cursor (R-GUARD.cursor)",
     "static rules over MIR and borrow-checker witnesses: a capacity check cannot be wrapped by the request size; a block is carved at "
     "the size of the class it is filed under; RAII guards are tied to their pool; a freed chunk is always handed back; a live arena is "
     "never freed by an allocation path",
